@@ -301,7 +301,7 @@ EXTRA = {
     "c11_parse_chroms_shared_between_parsers": (G + "io/gff3/parser.py", "def default_parse_func(", "_PENDING = []\n\n\ndef default_parse_func("),
     "c10_liftover_memo_keyed_by_id": (G + "location/location.py", "class Location(AbstractLocation, ABC):\n", "_LIFT_MEMO = {}\n\n\nclass Location(AbstractLocation, ABC):\n"),
 }
-# planted changes whose trigger is narrow enough that the default quick budget (700 histories) is not a reliable catch:
+# planted changes whose trigger is narrow enough that the default quick budget (1000 histories) is not a reliable catch:
 # run the same check with more histories (thorough tier finds them; said so in DESIGN.md 9.5)
 # not in the table: the revert of fix b09015f (CompoundInterval.end) - its history-dependent symptom (reverse() twice on a
 # nested-block, non-plus-strand location) shows in about 1 of 3 000 generated histories even after nested blocks and echo
